@@ -9,6 +9,9 @@
 #define XR_M (((xresp0_pipe *) arg)->aio_recv.a_msg)
 #define XR_TTL (XR_S->ttl.v)
 #define XR_LEN0 OLD(XR_M->m_body.ch_len)
+#ifndef XR_TTLMAX
+#define XR_TTLMAX NNI_MAX_MAX_TTL
+#endif
 
 /* Pipe receive callback.  For EVERY body a peer can send and every ttl 1..15
  * (g_n = number of leading non-end words, see spec.h):
@@ -33,10 +36,11 @@ __CPROVER_ensures(g_pipe_close_calls == OLD(g_pipe_close_calls) + 1 && g_pipe_cl
 static void xresp0_recv_cb(void *arg)
 __CPROVER_requires(__CPROVER_is_fresh(arg, sizeof(struct xresp0_pipe)))
 __CPROVER_requires(__CPROVER_is_fresh(XR_S, sizeof(struct xresp0_sock)) && VP_NO_LOCK_HELD)
-__CPROVER_requires(XR_TTL >= 1 && XR_TTL <= NNI_MAX_MAX_TTL)
+__CPROVER_requires(XR_TTL >= 1 && XR_TTL <= XR_TTLMAX)
 __CPROVER_requires(XR_P->aio_recv.a_result == 0 && SV_WIRE_MSG(XR_M) && CH_GHOST_PRE(&XR_M->m_body))
-/* ghost equations: g_n = number of leading non-end words; g_hb = body byte that lands at header index g_hk */
-__CPROVER_requires(BT_COUNT_IS(XR_M, g_n) && BT_HDR_GHOST_PRE(XR_M, 4))
+/* ghost equations: g_n = number of leading non-end words; (g_k, g_b) = any pre-state body byte; pre-state geometry */
+BT_COUNT_REQ(XR_M, g_n)
+__CPROVER_requires(BT_BODY_GHOSTS(XR_M))
 __CPROVER_assigns(XR_P->aio_recv.a_msg, XR_P->aio_putq.a_msg, VP_PROTO_GHOST_LIST, VP_SV_GHOST_LIST, g_free_calls)
 __CPROVER_assigns(*XR_M)
 __CPROVER_frees(XR_M, XR_M->m_body.ch_buf)
@@ -50,7 +54,7 @@ __CPROVER_ensures(BT_TOOFAR(g_n, XR_TTL) ==> (__CPROVER_was_freed(OLD(XR_M)) && 
 __CPROVER_ensures(BT_OK(g_n, XR_TTL, XR_LEN0) ==> (!__CPROVER_was_freed(OLD(XR_M)) && g_pipe_close_calls == OLD(g_pipe_close_calls) && g_sv.mq_put_calls == OLD(g_sv.mq_put_calls) + 1 && g_sv.mq_put_q == XR_S->urq && g_sv.mq_put_aio == &XR_P->aio_putq && g_sv.mq_put_msg == OLD(XR_M) && XR_P->aio_putq.a_msg == OLD(XR_M)))
 /* header = [pipe id][words 0..n] (n + 2 words <= 16 words = 64 bytes), origin recorded */
 __CPROVER_ensures(BT_OK(g_n, XR_TTL, XR_LEN0) ==> (OLD(XR_M)->m_header_len == 4 * (g_n + 2) && OLD(XR_M)->m_header_len <= MSG_HDRCAP && BE32(HDR(OLD(XR_M))) == XR_P->id && OLD(XR_M)->m_pipe == XR_P->id))
-__CPROVER_ensures((BT_OK(g_n, XR_TTL, XR_LEN0) && g_hk >= 4 && g_hk < 4 * (g_n + 2)) ==> HDR(OLD(XR_M))[g_hk] == g_hb)
+__CPROVER_ensures((BT_OK(g_n, XR_TTL, XR_LEN0) && g_k < 4 * (g_n + 1)) ==> HDR(OLD(XR_M))[4 + g_k] == g_b)
 /* the last header word is the end word, no earlier backtrace word is */
 __CPROVER_ensures(BT_OK(g_n, XR_TTL, XR_LEN0) ==> (HDR(OLD(XR_M))[4 * (g_n + 1)] & 0x80u) != 0)
 __CPROVER_ensures((BT_OK(g_n, XR_TTL, XR_LEN0) && g_j >= 1 && g_j <= g_n) ==> (HDR(OLD(XR_M))[4 * g_j] & 0x80u) == 0)
